@@ -292,6 +292,7 @@ fn gen_coeffs(src: &mut Src, degree: usize, real: bool) -> Gen {
     let spread = src.f64_in(0.0, 6.0);
     let mut coef: Vec<C> = Vec::with_capacity(degree + 1);
     let zero_rich = src.below(3) == 0;
+    let axis_phases = !real && src.coin();
     for k in 0..=degree {
         let zero = k < degree && ((zero_rich && src.below(2) == 0) || (k == 0 && src.below(4) == 0));
         if zero {
@@ -303,6 +304,14 @@ fn gen_coeffs(src: &mut Src, degree: usize, real: bool) -> Gen {
         let s = if src.coin() { -1.0 } else { 1.0 };
         if real {
             coef.push((s * m, 0.0));
+        } else if axis_phases {
+            // exactly real / purely imaginary complex coefficients
+            coef.push(match src.below(4) {
+                0 => (m, 0.0),
+                1 => (0.0, m),
+                2 => (-m, 0.0),
+                _ => (0.0, -m),
+            });
         } else {
             let t = src.f64_in(0.0, 6.283);
             coef.push((m * t.cos(), m * t.sin()));
@@ -473,7 +482,7 @@ impl Prop for C10 {
     fn rule(&self) -> String {
         "per case: coefficient type in {f64, Complex<f64>}, refine in {false,true}, degree 0..=12; 3/5 polynomials expanded (complex double-double) from prescribed roots drawn from \
          {real, conjugate pair, purely imaginary pair, zero with multiplicity 1..3, repeat of the previous root, cluster at distance 1e-3..1e-1, small integers, magnitudes 0.1..3} times a scale 1e-2..1e2, \
-         leading coefficient of either sign / any phase and magnitude 1e-3..1e3; 2/5 random coefficients of mixed sign with magnitude ratio up to 1e6 and a menu that zeroes the constant and inner coefficients. \
+         leading coefficient of either sign / any phase and magnitude 1e-3..1e3; 2/5 random coefficients of mixed sign with magnitude ratio up to 1e6 and a menu that zeroes the constant and inner coefficients (complex coefficients: random phases, or - half of the time - exactly real / purely imaginary values). \
          Oracle: exactly n finite values, each with |p(z)| (Horner in complex double-double on the actual f64 coefficients) <= tau*max|a_k|*max(1,|z|)^n, tau = 1e-11 refined / 1e-6 unrefined Laguerre path / 1e-5 unrefined closed forms (degree <= 3); \
          for prescribed roots with pairwise separation >= 0.25*scale, magnitudes <= 4*scale and degree <= 6 a one-to-one matching within 1e-8*(1+|r|); for degree 2 and 3 with certified well-separated roots (prescribed, or |z1-z2| >= 0.25(|b/a|+sqrt|c/a|) from the discriminant) the sum of the values equals -a_(n-1)/a_n within 1e-10 relative (all roots present); degree 0 must panic. \
          A failing case is attributed to a known finding only if a bit-exact replica of the Laguerre/deflation driver reproduces the library's output AND (D7) some Laguerre call fails to converge (budget exhausted or stops at a non-root of the polynomial it was given), or (D11) refine = false, degree >= 4 and all Laguerre calls converged on their deflated polynomials (unpolished forward deflation). Closed-form results (degree <= 3, unrefined) and any output the replica does not reproduce are always judged. \
